@@ -900,6 +900,11 @@ impl Component for SysComp {
          every case with index 5 mod 16 is the lopsided-share scenario (hkarm at every tick, one uplink starved by a \
          tiny window, late / missing keepalive echoes, phases under the 100 kbit/s floor, a NAK-heavy loss phase, an \
          optional reload) in which weak / probation / back-off / loss-degraded verdicts are reached and stamped. \
+         Every case with index 3 mod 4 or 6 mod 16 (half of the reload cases) takes the SOCKET path for its uplink traffic (ops rxpush / rxerr / rxrun: the \
+         datagram is sent to the uplink's real socket, read by the REAL reader task into the REAL packet channel and \
+         handed to the shell by the REAL drain_packet_queue), with inert junk backlogs of 1 / 33..40 / 64..70 datagrams \
+         (more than one recvmmsg batch, more than one drain budget), empty datagrams, receive-error sentinels and \
+         relayable datagrams of 1499 / 1500 / 1501 / 2000 bytes. \
          Thorough tier: cases up to 450 steps. Non-trivial: registration completed and at least one datagram was put \
          on the wire."
     }
@@ -914,6 +919,51 @@ impl Component for SysComp {
                     *l = format!("hkarm {rest}");
                 }
             }
+        }
+        // B1: every case with index 3 mod 4 or 6 mod 16 takes the SOCKET path for its uplink traffic: an `uplink` op becomes
+        // `rxpush` (the datagram is sent to the uplink's real socket and read by the real reader task) followed by
+        // `rxrun` (the real `drain_packet_queue` on the real channel).  Around the datagram: inert junk the shell drops
+        // (empty datagrams the reader skips, 1-byte datagrams, receive-error sentinels) in backlogs of 1 / 33..40 (more
+        // than one recvmmsg batch) / 64..70 (more than one drain budget), and now and then a relayable datagram of
+        // 1500 / 1501 / 2000 bytes (cut to the 1500-byte receive buffer).
+        if idx % 4 == 3 || idx % 16 == 6 {
+            let mut out = Vec::with_capacity(ops.len() * 2);
+            for l in ops {
+                let t: Vec<&str> = l.split(' ').collect();
+                if let ["uplink", now, cid, h] = t.as_slice() {
+                    if *h == "-" {
+                        out.push(format!("rxerr {cid}"));
+                        out.push(format!("rxrun {now}"));
+                        continue;
+                    }
+                    let (junk, drains) = match rng.below(20) {
+                        0..=9 => (String::new(), 1),
+                        10..=12 => ("-,07,".to_string(), 1),
+                        13..=15 => (format!("{}*07,", rng.range(33, 40)), 1),
+                        16..=17 => (format!("{}*07,-,", rng.range(64, 70)), 2),
+                        _ => ("-,".to_string(), 1),
+                    };
+                    if rng.chance(1, 12) {
+                        out.push(format!("rxerr {cid}"));
+                    }
+                    out.push(format!("rxpush {cid} {junk}{h}"));
+                    for _ in 0..drains {
+                        out.push(format!("rxrun {now}"));
+                    }
+                    if rng.chance(1, 10) {
+                        // an SRT control datagram of an unassigned type (relayed like any non-internal datagram)
+                        // at and beyond the receive buffer size
+                        let len = *rng.pick(&[1499usize, 1500, 1501, 2000]);
+                        let mut b = vec![0x80u8, 0x07];
+                        b.extend(rng.bytes(len - 2));
+                        out.push(format!("rxpush {cid} {}", to_hex(&b)));
+                        out.push(format!("rxrun {now}"));
+                    }
+                } else {
+                    out.push(l);
+                }
+            }
+            ops = out;
         }
         ops
     }
